@@ -1,8 +1,10 @@
 package main
 
 import (
+	"go/ast"
 	"go/token"
 	"go/types"
+	"sort"
 	"strings"
 
 	"golang.org/x/tools/go/ssa"
@@ -240,6 +242,36 @@ func unitArithmeticRule(c *Ctx, rule string) {
 			continue
 		}
 		n++
+		// the divisor must be refused when it is 0 (the builder accepts any value)
+		zeroChecked := false
+		for _, g := range p.SrcFuncs(func(pp string) bool { return pp == pkgPath("mem") }) {
+			for _, b := range g.Blocks {
+				for _, in := range b.Instrs {
+					cmp, ok := in.(*ssa.BinOp)
+					if !ok || (cmp.Op != token.EQL && cmp.Op != token.NEQ && cmp.Op != token.LSS && cmp.Op != token.GTR && cmp.Op != token.LEQ && cmp.Op != token.GEQ) {
+						continue
+					}
+					for _, pair := range [][2]ssa.Value{{cmp.X, cmp.Y}, {cmp.Y, cmp.X}} {
+						if !(constIs(pair[1], "0") || constIs(pair[1], "1")) {
+							continue
+						}
+						var f *types.Var
+						switch y := stripConv(pair[0]).(type) {
+						case *ssa.UnOp:
+							f = FieldOf(y.X)
+						case *ssa.Field:
+							f = FieldOf(y)
+						}
+						if f != nil && f.Name() == "unitSize" && f.Pkg() != nil && f.Pkg().Path() == pkgPath("mem") {
+							zeroChecked = true
+						}
+					}
+				}
+			}
+		}
+		if usesUnit && !zeroChecked && bad == "" {
+			c.Fail(rule, SSAFuncKey(fn)+"#zero", fn.Pos(), "the unit size divides every address but is never compared with 0 in the package: a storage built with unit size 0 is accepted and panics (integer divide by zero) on the first access")
+		}
 		c.Check(bad == "", rule, SSAFuncKey(fn), fn.Pos(), "unit base and offset are computed by division and remainder",
 			"the storage's unit arithmetic uses a mask or shift derived from unitSize ("+bad+"): that equals the quotient/remainder only for power-of-two unit sizes, which the constructor does not require; for any other size bytes are stored in slots that a read at another offset never visits")
 	}
@@ -643,4 +675,304 @@ func unmarshalCapacityRule(c *Ctx, rule string) {
 	}
 	c.Check(checked, rule, "queueing.Buffer.UnmarshalJSON", p.Decl(f).Pos(), "the decoded element count is compared with the decoded capacity",
 		"UnmarshalJSON installs whatever the document says: a buffer with more elements than its capacity is accepted silently, although Restore and the port checkpoint reject exactly that (a corrupted or hand-edited checkpoint yields a buffer that violates its bound)")
+}
+
+// gzipDrainedRule: archive/tar stops reading at its end-of-archive marker, so
+// the gzip stream underneath is never read to its end and compress/gzip never
+// gets to compare the CRC-32/size trailer: a corrupted archive whose tar framing
+// survives is loaded without error, with different contents. After the tar loop
+// the reader must be drained (io.Copy(io.Discard, gz) / io.ReadAll(gz)) and the
+// error returned.
+func gzipDrainedRule(c *Ctx, rule string) {
+	p := c.P
+	f := c.fn(rule, "simulation", "", "readArchiveStream")
+	if f == nil {
+		return
+	}
+	fn := p.SSAFunc(f)
+	if fn == nil {
+		c.Unknown(rule, "simulation.readArchiveStream", p.Decl(f).Pos(), "no SSA body")
+		return
+	}
+	var gz ssa.Value
+	for _, b := range fn.Blocks {
+		for _, in := range b.Instrs {
+			if ex, ok := in.(*ssa.Extract); ok && ex.Index == 0 {
+				if call, isCall := ex.Tuple.(*ssa.Call); isCall {
+					if nm, pk := calleeNamePkg(call); nm == "NewReader" && pk == "compress/gzip" {
+						gz = ex
+					}
+				}
+			}
+		}
+	}
+	loops := loopsOf(fn)
+	drained := false
+	if gz != nil {
+		for _, b := range fn.Blocks {
+			if innermost(loops, b) != nil {
+				continue
+			}
+			for _, in := range b.Instrs {
+				call, ok := in.(*ssa.Call)
+				if !ok {
+					continue
+				}
+				nm, pk := calleeNamePkg(call)
+				if pk != "io" || (nm != "Copy" && nm != "ReadAll" && nm != "CopyBuffer") {
+					continue
+				}
+				for _, a := range call.Call.Args {
+					if a == gz {
+						drained = true
+					}
+					if mi, isMI := a.(*ssa.MakeInterface); isMI && mi.X == gz {
+						drained = true
+					}
+				}
+			}
+		}
+	}
+	c.Check(gz != nil && drained, rule, "simulation.readArchiveStream", p.Decl(f).Pos(), "the gzip stream is read to its end after the tar entries, so its checksum is verified",
+		"readArchiveStream stops at the tar end-of-archive marker and never reads the gzip stream to its end: compress/gzip verifies the CRC-32/size trailer only at EOF, so a corrupted archive whose tar framing survives loads without error and restores different contents")
+}
+
+// boundedDecodedAllocRule: a count read from the checkpoint stream (binary.Read
+// into a local) must be compared with a bound before it sizes a map or slice: a
+// 24-byte payload claiming 2^38 units makes make(map, n) exhaust memory before a
+// single record is read.
+func boundedDecodedAllocRule(c *Ctx, rule string, fns []*ssa.Function) {
+	n := 0
+	for _, fn := range fns {
+		// cells filled by encoding/binary.Read
+		decoded := map[ssa.Value]bool{}
+		for _, b := range fn.Blocks {
+			for _, in := range b.Instrs {
+				if call, ok := in.(ssa.CallInstruction); ok {
+					if nm, pk := calleeNamePkg(call); nm == "Read" && pk == "encoding/binary" && len(call.Common().Args) == 3 {
+						a := call.Common().Args[2]
+						if mi, isMI := a.(*ssa.MakeInterface); isMI {
+							a = mi.X
+						}
+						decoded[a] = true
+					}
+				}
+			}
+		}
+		// ... and results of same-package helpers that read the stream (readUint64)
+		for _, b := range fn.Blocks {
+			for _, in := range b.Instrs {
+				if call, ok := in.(*ssa.Call); ok {
+					if sc := call.Common().StaticCallee(); sc != nil && sc.Pkg == fn.Pkg && readsStream(sc) {
+						decoded[call] = true
+					}
+				}
+			}
+		}
+		if len(decoded) == 0 {
+			continue
+		}
+		fromDecoded := func(v ssa.Value) ssa.Value {
+			for y := range DataSlice(fn, v) {
+				if u, isU := y.(*ssa.UnOp); isU && decoded[u.X] {
+					return u.X
+				}
+				if decoded[y] {
+					return y
+				}
+				if ex, isEx := y.(*ssa.Extract); isEx && decoded[ex.Tuple] {
+					return ex.Tuple
+				}
+			}
+			return nil
+		}
+		for _, b := range fn.Blocks {
+			for _, in := range b.Instrs {
+				var sizes []ssa.Value
+				switch x := in.(type) {
+				case *ssa.MakeMap:
+					if x.Reserve != nil {
+						sizes = append(sizes, x.Reserve)
+					}
+				case *ssa.MakeSlice:
+					sizes = append(sizes, x.Len, x.Cap)
+				}
+				for _, sz := range sizes {
+					cell := fromDecoded(sz)
+					if cell == nil {
+						continue
+					}
+					n++
+					// a dominating comparison that reads the same cell
+					bounded := false
+					for _, fact := range FactsAt(b) {
+						if bo, isBO := fact.Cond.(*ssa.BinOp); isBO {
+							switch bo.Op {
+							case token.GTR, token.GEQ, token.LSS, token.LEQ:
+								if fromDecoded(bo.X) == cell || fromDecoded(bo.Y) == cell {
+									bounded = true
+								}
+							}
+						}
+					}
+					c.Check(bounded, rule, SSAFuncKey(fn)+"#alloc@"+itoa(n), in.Pos(), "the decoded count is bounded before it sizes an allocation",
+						"a count read from the checkpoint stream sizes a map/slice without having been compared with any bound: a few corrupted bytes make the load allocate gigabytes (or die with out-of-memory, which cannot be recovered) instead of returning an error")
+				}
+			}
+		}
+	}
+	c.Note("%s: %d allocations sized from decoded counts inspected", rule, n)
+}
+
+// readsStream: h decodes from a stream (it calls encoding/binary.Read or
+// io.ReadFull directly).
+func readsStream(h *ssa.Function) bool {
+	for _, b := range h.Blocks {
+		for _, in := range b.Instrs {
+			if call, ok := in.(ssa.CallInstruction); ok {
+				nm, pk := calleeNamePkg(call)
+				if (pk == "encoding/binary" && nm == "Read") || (pk == "io" && nm == "ReadFull") {
+					return true
+				}
+			}
+		}
+	}
+	return false
+}
+
+// wrapperResetRule: a connector wrapper (nvlink, pcie, mesh) numbers and names
+// what it adds from counters and tables of its own. CreateNetwork starts a new
+// network on the same wrapper; every field of the wrapper that the Add*/PlugIn*
+// methods grow must be re-initialised there, or the second network continues the
+// first one's numbering (duplicate switch names, device IDs that start at 3) and
+// its tables differ from a fresh wrapper's.
+func wrapperResetRule(c *Ctx, rule string, rels []string) {
+	p := c.P
+	n := 0
+	for _, rel := range rels {
+		var create *ssa.Function
+		fns := p.SrcFuncs(func(pp string) bool { return pp == pkgPath(rel) })
+		for _, fn := range fns {
+			if fn.Name() == "CreateNetwork" && fn.Signature.Recv() != nil && strings.HasSuffix(fn.Signature.Recv().Type().String(), ".Connector") {
+				create = fn
+			}
+		}
+		if create == nil {
+			continue
+		}
+		reset := map[*types.Var]bool{}
+		storesAndDeletes(create, 1, map[*ssa.Function]bool{}, reset)
+		// fields grown by the other methods of the wrapper
+		grown := map[*types.Var]ssa.Instruction{}
+		for _, fn := range fns {
+			if fn == create || fn.Signature.Recv() == nil || !types.Identical(fn.Signature.Recv().Type(), create.Signature.Recv().Type()) || len(fn.Params) == 0 {
+				continue
+			}
+			if strings.HasPrefix(fn.Name(), "With") || strings.HasPrefix(fn.Name(), "New") {
+				continue
+			}
+			recv := ssa.Value(fn.Params[0])
+			for _, b := range fn.Blocks {
+				for _, in := range b.Instrs {
+					switch x := in.(type) {
+					case *ssa.Store:
+						fa, isFA := x.Addr.(*ssa.FieldAddr)
+						if !isFA || fa.X != recv {
+							continue
+						}
+						f := FieldOf(fa)
+						if f == nil {
+							continue
+						}
+						if isGrowth(x) {
+							grown[f] = in
+						}
+						if bo, isBO := x.Val.(*ssa.BinOp); isBO && bo.Op == token.ADD && loadOfKey(bo.X, VKey(x.Addr)) {
+							grown[f] = in
+						}
+					case *ssa.MapUpdate:
+						if u, isU := x.Map.(*ssa.UnOp); isU {
+							if fa, isFA := u.X.(*ssa.FieldAddr); isFA && fa.X == recv {
+								if f := FieldOf(fa); f != nil {
+									grown[f] = in
+								}
+							}
+						}
+					}
+				}
+			}
+		}
+		var names []string
+		byName := map[string]*types.Var{}
+		for f := range grown {
+			names = append(names, f.Name())
+			byName[f.Name()] = f
+		}
+		sort.Strings(names)
+		for _, nm := range names {
+			f := byName[nm]
+			n++
+			c.Check(reset[f], rule, rel+".Connector."+nm, grown[f].Pos(), "re-initialised by CreateNetwork",
+				"the wrapper's "+nm+" is grown by its Add*/PlugIn* methods ("+p.Rel(grown[f].Pos())+") but CreateNetwork does not re-initialise it: a second network built on the same wrapper continues the first one's numbering and naming, so its switches, device IDs and routing tables differ from those of a fresh wrapper (and names can repeat)")
+		}
+	}
+	c.Check(n >= 3, rule, "instances", 0, itoa(n)+" wrapper fields inspected", "fewer wrapper fields found than confirmed by hand")
+}
+
+// tracerLockedRule: a tracer object is attached to any number of components, and
+// the parallel engine runs the handlers of one instant in separate goroutines.
+// Every method of a tracer type that touches the tracer's own maps or lists must
+// therefore hold the tracer's mutex — all of the package's tracers do, bar the one
+// this rule was written for.
+func tracerLockedRule(c *Ctx, rule string, floor int) {
+	p := c.P
+	n := 0
+	for _, fn := range p.SrcFuncs(func(pp string) bool { return pp == pkgPath("tracing") }) {
+		rv := fn.Signature.Recv()
+		if rv == nil || fn.Parent() != nil || len(fn.Params) == 0 || !ast.IsExported(fn.Name()) {
+			continue
+		}
+		tn := strings.TrimPrefix(rv.Type().String(), "*")
+		tn = tn[strings.LastIndex(tn, ".")+1:]
+		if !map[string]bool{"TotalTimeTracer": true, "AverageTimeTracer": true, "BusyTimeTracer": true, "TagCountTracer": true}[tn] {
+			continue // the four aggregate tracers of this property
+		}
+		recv := ssa.Value(fn.Params[0])
+		touches := false
+		locks := false
+		for _, b := range fn.Blocks {
+			for _, in := range b.Instrs {
+				switch x := in.(type) {
+				case *ssa.MapUpdate:
+					if memRoot(x.Map) == recv {
+						touches = true
+					}
+				case *ssa.Lookup:
+					if memRoot(x.X) == recv {
+						if _, isMap := x.X.Type().Underlying().(*types.Map); isMap {
+							touches = true
+						}
+					}
+				case ssa.CallInstruction:
+					nm, pk := calleeNamePkg(x)
+					if pk == "sync" && (nm == "Lock" || nm == "RLock") && len(x.Common().Args) > 0 && memRoot(x.Common().Args[0]) == recv {
+						locks = true
+					}
+					if bi, isB := x.Common().Value.(*ssa.Builtin); isB && bi.Name() == "delete" && len(x.Common().Args) > 0 && memRoot(x.Common().Args[0]) == recv {
+						touches = true
+					}
+					if pk == "container/list" && len(x.Common().Args) > 0 && memRoot(x.Common().Args[0]) == recv {
+						touches = true
+					}
+				}
+			}
+		}
+		if !touches {
+			continue
+		}
+		n++
+		c.Check(locks, rule, SSAFuncKey(fn), fn.Pos(), "the tracer's tables are touched under its mutex",
+			"the method reads or writes the tracer's own map/list without taking a mutex of the tracer: one tracer attached to several components receives concurrent calls under the parallel engine (same-instant handlers run in separate goroutines), which corrupts the table (fatal error: concurrent map writes) or the result")
+	}
+	c.Check(n >= floor, rule, "instances", 0, itoa(n)+" tracer methods that touch their tables inspected", "fewer tracer methods found than confirmed by hand")
 }
